@@ -6,6 +6,9 @@ import vlib
 
 TRUSTED = [
     "Coq 8.16.1 kernel (+ vm_compute only in the non-vacuity Example)",
+    "Model/Utf8Natives.v is a hand model of string::char_at / substr / chars / split(\"\") / reverse / pad_left / pad_right / "
+    "repeat / concat / byte_at (runtime/src/stdlib/string.rs), tied on every run by a natives program per generated string at "
+    "-O0..-O3 (method and qualified call syntax); capacity errors of repeat / pad are not modelled",
     "Model/Utf8.v is a hand model of the StringForLoop arm (control_flow.inc op 177), the StringLoadChar arm "
     "(arrays.inc op 176), string::len / VecLen-on-string (byte length) and string::char_len; "
     "tied on every run by hx_utf8 running generated programs through the real pipeline at -O0..-O3",
@@ -38,6 +41,9 @@ def coq_query(q):
     if t[0] == "QProg":
         k, l = t[1].split(None, 1)
         return f"QProg {k} {l}%N"
+    if t[0] == "QNat":
+        a, b = t[1].split("] [")
+        return f"QNat {a}]%N [{b}%N"
     return f"{t[0]} {t[1]}%N"           # QStr with a list
 
 
@@ -114,6 +120,55 @@ def prog_oracle(cs, v):
     return None
 
 
+def two_lists(q):
+    a, b = q[q.index("[") + 1:].split("] [")
+    b = b.rstrip("]")
+    f = lambda t: [int(x) for x in t.split(";")] if t.strip() else []
+    return f(a), f(b)
+
+
+def nat_oracle(cs, ps, v):
+    """Python strings (sequences of code points) as the reference for the character natives: the property's
+    reading of them -- char_at(i) is the i-th iteration item, substr takes items, reverse/pad/repeat count items."""
+    if v[0] in (-9, -8):
+        return ("nat-run-failed:%d:%d" % (v[0], v[1]), f"natives program failed / output unparsable: {v[:2]}")
+    s = "".join(map(chr, cs))
+    pad = "".join(map(chr, ps))
+    n = len(s)
+    pc = pad[0] if pad else " "
+    want, names = [], []
+    for i in range(-1, n + 2):
+        want.append(s[i] if 0 <= i < n else "")
+        names.append(f"char_at({i})")
+    for a, l in [(0, n), (1, 2), (n - 1, 5), (n, 1), (n + 1, 1), (0, 0), (-1, 2), (2, -1), (1, n)]:
+        want.append("" if a < 0 or l < 0 else s[a:a + l])
+        names.append(f"substr({a},{l})")
+    want.append(s[::-1]); names.append("reverse")
+    padl = lambda w: pc * max(0, (w - n) if w > 0 else 0)
+    want += [padl(n - 1) + s, padl(n + 2) + s, s + padl(n + 2), s + padl(0)]
+    names += [f"pad_left({n - 1})", f"pad_left({n + 2})", f"pad_right({n + 2})", "pad_right(0)"]
+    for k in (-1, 0, 1, 2):
+        want.append(s * max(0, k)); names.append(f"repeat({k})")
+    want += ["\n".join(s), "\n".join(s), s + pad]
+    names += ["chars", "split('')", "concat"]
+    b = s.encode("utf-8")
+    ints = [(-1 if i < 0 or i >= len(b) else b[i]) for i in (-1, 0, len(b) - 1, len(b))]
+    pos, got = 0, []
+    try:
+        for _ in want:
+            it, pos = parse_framed(v, pos)
+            got.append(it)
+        tail = v[pos:]
+    except (ValueError, IndexError) as e:
+        return ("nat-obs-unparsable", f"observation vector malformed: {e}")
+    for nm, w, g in zip(names, want, got):
+        if w.encode("utf-8") != g:
+            return ("native:" + nm.split("(")[0], f"{nm} on {s!r} (pad {pad!r}) gives {g!r}, by characters it is {w.encode('utf-8')!r}")
+    if tail != ints:
+        return ("native:byte_at", f"byte_at at -1, 0, len-1, len of {s!r} gives {tail}, expected {ints}")
+    return None
+
+
 def std_oracle(kind, q, v):
     """Python's own UTF-8 codec as an independent reference for the Rust std primitives."""
     if kind == "enc":
@@ -187,7 +242,7 @@ def run(ctx):
     ctx.cov["trusted_base"] = TRUSTED
     ctx.assumptions = ["the model of the three string paths is the code: checked by the contract tie on every run",
                        "strings are valid UTF-8 (the VM's own invariant)"]
-    proved = ctx.prove("C20", extracted=["-none-"])
+    proved = ctx.prove("C20", extracted=["Utf8Select"])
     if ctx.tier == "thorough" and proved:
         ctx.coqchk("C20")
     ok, out = vlib.coq_make(["Base/CaseCheck.vo", "Model/Utf8Obs.vo"])
@@ -218,12 +273,14 @@ def run(ctx):
             ctx.violation("c20:harness-crash", "hx_utf8 crashed (panic outside run_program?)",
                           {"profile": prof, "output_tail": out[-2000:]})
             return
-        cases, meta, srcs = [], [], {}
+        cases, meta, srcs, nat_srcs = [], [], {}, {}
         for line in out.split("\n"):
             p = line.split("\t")
             if p[0] == "G":
                 srcs[p[1]] = (p[2], p[3])
-            elif p[0] in ("S", "P") and len(p) == 4:
+            elif p[0] == "H":
+                nat_srcs[p[1]] = p[3]
+            elif p[0] in ("S", "P", "N") and len(p) == 4:
                 cases.append((coq_query(p[2]), zlist(p[3].split())))
                 meta.append((p[0], p[1], p[2], [int(x) for x in p[3].split()]))
         total += len(cases) + ncorp
@@ -237,6 +294,24 @@ def run(ctx):
                 if d:
                     nd += 1
                     ctx.violation("c20:std:" + m, d, {"query": q, "observed": v, "profile": prof})
+                continue
+            if tag == "N":
+                cs, ps = two_lists(q)
+                cid, form, scope, style, opt = m.split(":")
+                dist["native_program_runs"] = dist.get("native_program_runs", 0) + 1
+                dist.setdefault("native_call_style", {})
+                dist["native_call_style"][style] = dist["native_call_style"].get(style, 0) + 1
+                dist.setdefault("pad_strings", {})
+                dist["pad_strings"][str(ps)] = dist["pad_strings"].get(str(ps), 0) + 1
+                if cs:
+                    distinct.add(("nat", tuple(cs), tuple(ps), form, scope, style, opt))
+                d = nat_oracle(cs, ps, v)
+                if d:
+                    nd += 1
+                    if nd <= 5:
+                        ctx.violation(f"c20:{d[0]}:{form}", f"{d[1]} ({form}, {scope}, {style}, -{opt})",
+                                      {"scalars": cs, "pad": ps, "form": form, "opt": opt, "observed": v[:200],
+                                       "program": vlib_unesc(nat_srcs.get(cid, "")), "profile": prof})
                 continue
             cs = scalars_of(q)
             cid, form, idxf, scope, opt, ops = m.split(":")
@@ -278,12 +353,21 @@ def run(ctx):
                                          "model": (m or "")[:600]} for i, m in zip(bad, mo)]
             for i in bad[:3]:
                 tag, m, q, v = meta[i]
+                if tag == "N":
+                    cid = m.split(":")[0]
+                    ctx.violation("c20:model-mismatch:natives:" + m.split(":")[1],
+                                  f"output of the natives program differs from the model's prediction ({m})",
+                                  {"case": m, "query": q[:400], "observed": v[:200], "opt": m.split(":")[-1],
+                                   "program": vlib_unesc(nat_srcs.get(cid, "")), "profile": prof})
                 if tag == "P":
                     cid = m.split(":")[0]
                     ctx.violation("c20:model-mismatch:" + m.split(":")[1],
                                   f"program output differs from the model's prediction ({m})",
                                   {"case": m, "scalars": scalars_of(q), "observed": v, "opt": m.split(":")[4],
                                    "program": vlib_unesc(srcs.get(cid, ("", ""))[1]), "profile": prof})
+        ns = [(m, q, v) for tag, m, q, v in meta if tag == "N"]
+        if ns:
+            ctx.add_samples([{"case": ns[len(ns) // 2][0], "query": ns[len(ns) // 2][1][:200], "observed": " ".join(map(str, ns[len(ns) // 2][2]))[:300]}])
         ps = [(m, q, v) for tag, m, q, v in meta if tag == "P"]
         ctx.add_samples([{"case": m, "query": q[:300], "observed": " ".join(map(str, v))[:300]}
                          for m, q, v in (ps[len(ps) // 3: len(ps) // 3 + 2] + ps[-9:-8])])
